@@ -282,6 +282,10 @@ def panels(phase):
          ev(.5, 1, .5, 1), ev(1, .5, 1, 1)),
         (ev(0, .25, .5, .75), ev(0, 0, 0, 0), ev(0, .25, .5), ev(hz, 0, hz), const(None), const(None)),
         (ev(.25, .5, .75, 1.0), ev(hz, hz * 2, hz, hz), ev(0, .5, 1.0, 1.5), ev(hz, hz, 0, hz), const(None), const(None)),
+        # estimate on its own time base with a pitch that moves between samples: at t=.25 linear interpolation
+        # gives 48 cents (hit), nearest / zero-order hold give 60 cents (miss) - the `kind` keyword is observable
+        (ev(0, .25, .5, .75), ev(hz, hz, hz, hz), ev(0, .2, .45, .7),
+         ev(hz, hz * 2 ** (60 / 1200.0), hz, hz * 2 ** (60 / 1200.0)), const(None), const(None)),
     ]
     P["multipitch"] = [
         (ev(0, .25, .5), frames([440, 660], [], [220]), ev(0, .25, .5), frames([440], [330], [220, 440])),
